@@ -365,7 +365,7 @@ func (eng) Generate(mode, tier string, r *hx.Rand) []*hx.Case {
 		for _, id := range interestingIDs(r) {
 			cs = append(cs, mkCase("c13", "seg", []any{op13{K: "seg", ID: id}}))
 		}
-		nseg, nload, nsched := 300, 250, 450
+		nseg, nload, nsched := 300, 250, 380
 		if thorough {
 			nseg, nload, nsched = 3000, 2500, 4000
 		}
@@ -384,12 +384,19 @@ func (eng) Generate(mode, tier string, r *hx.Rand) []*hx.Case {
 		for i := 0; i < nsched; i++ {
 			cs = append(cs, genSched(r, r.Range(5, 24)))
 		}
-		nrw := 150
+		nrw := 120
 		if thorough {
 			nrw = 1200
 		}
 		for i := 0; i < nrw; i++ {
 			cs = append(cs, genRewind(r))
+		}
+		nret := 40
+		if thorough {
+			nret = 400
+		}
+		for i := 0; i < nret; i++ {
+			cs = append(cs, genRetain(r))
 		}
 	}
 	return cs
